@@ -77,6 +77,7 @@ var c09Menu = []c09Spec{
 	{Name: "udp*:P>R:Q@nic1", Conn: true, ConnNIC: 1},
 	{Name: "udpA1:P@nic1", Local: c09A1, BindNIC: 1},
 	{Name: "udp*:P@nic2", BindNIC: 2},
+	{Name: "udpA2:P>R:Q", Local: c09A2, Conn: true}, // bound to a secondary address, then connected
 }
 
 type c09Sock struct {
@@ -205,7 +206,15 @@ func c09Packets() []c09Pkt {
 // expect computes the reference receiver: index into c.socks, or -1 for nobody; processed=false
 // if the packet must not be processed at all (no response of any kind).
 func (c *c09World) expect(p c09Pkt) (idx int, processed bool) {
-	assigned := (p.NIC == 1 && (p.Dst == c09A1 || (p.Dst == c09A2 && !c.removedA2))) || (p.NIC == 2 && p.Dst == c09A3)
+	// a connected socket holds a route, and a route keeps its local address alive after
+	// RemoveAddress until it is released (the repository's documented delayed removal)
+	a2held := false
+	for _, s := range c.socks {
+		if s.spec.Conn && s.spec.Local == c09A2 {
+			a2held = true
+		}
+	}
+	assigned := (p.NIC == 1 && (p.Dst == c09A1 || (p.Dst == c09A2 && (!c.removedA2 || a2held)))) || (p.NIC == 2 && p.Dst == c09A3)
 	if !assigned {
 		if p.NIC == 1 && (c.promis || (c.subnet && p.Dst == c09Foreign)) {
 			// promiscuous NIC / subnet owner processes it as if the address were local
